@@ -11,7 +11,7 @@ func init() {
 		requiredProbes: []string{
 			"probe_refill_unfinished_token", "eof_with_data", "fault_zero_before_eof", "fault_error_with_data", "fault_error_without_data",
 			"probe_held_expired", "probe_held_verified_after_swap", "probe_shiftext_had_to_read", "probe_memory_family_runs",
-			"probe_peekrune_multibyte", "fault_zero_read", "fault_short_read", "probe_drained_to_end", "probe_long_input", "probe_huge_input", "probe_memory_family_lagged_free",
+			"probe_peekrune_multibyte", "fault_zero_read", "fault_short_read", "probe_drained_to_end", "probe_long_input", "probe_huge_input", "probe_memory_family_lagged_free", "probe_memory_family_skips",
 		},
 		rule: "one run = one seeded history (swarm-configured operation mix, buffer size, Free discipline) on the real buffer.StreamLexer over a simulated reader whose chunking/zero reads/EOF style/failure point are drawn per Read call; non-trivial = at least one refill happened while a token was unfinished, or an injected reader failure fired, or the run belongs to the long-stream memory family; distinct = hash of the sequence (operation kind, refill kind caused) differs",
 		realStub: map[string][]string{
@@ -31,7 +31,7 @@ func init() {
 		requiredProbes: []string{
 			"probe_terminator_borrowed", "probe_restore_after_borrow", "probe_ctor_reader_failed", "probe_ctor_reader_chunked",
 			"probe_peekrune_i_gt0_near_end", "probe_peekrune_multibyte", "probe_peekrune_truncated_at_end", "probe_peekrune_invalid_or_truncated",
-			"probe_scanned_to_end", "probe_big_input", "probe_sibling_instance", "fault_error_with_data", "fault_error_without_data", "fault_zero_read", "eof_with_data",
+			"probe_scanned_to_end", "probe_big_input", "probe_sibling_instance", "probe_sized_reader_partially_consumed", "fault_error_with_data", "fault_error_without_data", "fault_zero_read", "eof_with_data",
 		},
 		rule: "one run = one seeded cursor history on a real parse.Input or buffer.Lexer built through a tape-chosen constructor (bytes with/without spare capacity and tape-chosen garbage behind the input, string, simulated reader with chunking/zero reads/EOF styles/failure at byte k, three kinds of Bytes() readers, nil); non-trivial = the constructor's reader chunked or failed, or the terminator was borrowed from the caller's array, or PeekRune(i>0) was issued within 4 bytes of the end; distinct = hash of (type, constructor, failure, operation-kind sequence, distance-to-end class of each rune operation)",
 		realStub: map[string][]string{
